@@ -943,4 +943,104 @@ theorem copy_spec (g : Graph) (hw : WF g) (r : Nat) (hr : r < g.size) :
   · intro x y hx hy h
     exact indexOf_inj ((hl x).mpr hx) ((hl y).mpr hy) (Nat.add_left_cancel h)
 
+/-! ## unification: the fuel of `unify` is never exhausted -/
+
+def UStepFuel (n F : Nat) (step : Nat → Nat → Bnd → Seen → UOut) : Prop :=
+  ∀ a b bnd s, s.Nodup → Bounded n s → n * n + 1 ≤ F + s.length →
+    step a b bnd s ≠ .fuel ∧
+    ∀ bnd' s', step a b bnd s = .ok bnd' s' → s'.Nodup ∧ Bounded n s' ∧ s.length ≤ s'.length
+
+theorem uniL_fuel {n F step} (hs : UStepFuel n F step) :
+    ∀ ps bnd s, s.Nodup → Bounded n s → n * n + 1 ≤ F + s.length →
+      uniL step ps bnd s ≠ .fuel ∧
+      ∀ bnd' s', uniL step ps bnd s = .ok bnd' s' →
+        s'.Nodup ∧ Bounded n s' ∧ s.length ≤ s'.length := by
+  intro ps
+  induction ps with
+  | nil =>
+    intro bnd s h1 h2 _
+    refine ⟨by simp [uniL], ?_⟩
+    intro bnd' s' h
+    simp only [uniL, UOut.ok.injEq] at h
+    obtain ⟨_, rfl⟩ := h
+    exact ⟨h1, h2, Nat.le_refl _⟩
+  | cons q ps ih =>
+    intro bnd s h1 h2 h3
+    obtain ⟨x, y⟩ := q
+    obtain ⟨a1, a2⟩ := hs x y bnd s h1 h2 h3
+    rw [uniL]
+    cases hst : step x y bnd s with
+    | ok b1' s1 =>
+      obtain ⟨b1, b2, b3⟩ := a2 b1' s1 hst
+      obtain ⟨c1, c2⟩ := ih b1' s1 b1 b2 (by omega)
+      refine ⟨c1, ?_⟩
+      intro bnd' s' h
+      obtain ⟨d1, d2, d3⟩ := c2 bnd' s' h
+      exact ⟨d1, d2, by omega⟩
+    | fuel => exact absurd hst a1
+    | fail => exact ⟨by simp, by intro _ _ h; cases h⟩
+
+theorem uniN_fuel (g : Graph) : ∀ fuel, UStepFuel g.size fuel (uniN g fuel) := by
+  intro fuel
+  induction fuel with
+  | zero =>
+    intro a b bnd s h1 h2 h3
+    have := nodup_pairs_length_le h1 h2
+    omega
+  | succ fuel ih =>
+    intro a b bnd s h1 h2 h3
+    have triv : ∀ (B : Bnd) bnd' s', UOut.ok B s = UOut.ok bnd' s' →
+        s'.Nodup ∧ Bounded g.size s' ∧ s.length ≤ s'.length := by
+      intro B bnd' s' h
+      simp only [UOut.ok.injEq] at h
+      obtain ⟨_, rfl⟩ := h
+      exact ⟨h1, h2, Nat.le_refl _⟩
+    rw [uniN]
+    generalize deref g bnd (g.size + 1) a = a'
+    generalize deref g bnd (g.size + 1) b = b'
+    split
+    · exact ⟨by simp, triv _⟩
+    · cases hna : node g a' with
+      | var => exact ⟨by simp, triv _⟩
+      | atom c =>
+        cases hnb : node g b' with
+        | var => exact ⟨by simp, triv _⟩
+        | atom d =>
+          simp only
+          split
+          · exact ⟨by simp, triv _⟩
+          · exact ⟨by simp, by intro _ _ h; cases h⟩
+        | str f' bs => exact ⟨by simp, by intro _ _ h; cases h⟩
+      | str f as =>
+        cases hnb : node g b' with
+        | var => exact ⟨by simp, triv _⟩
+        | atom d => exact ⟨by simp, by intro _ _ h; cases h⟩
+        | str f' bs =>
+          simp only
+          split
+          · exact ⟨by simp, triv _⟩
+          · next hc =>
+            split
+            · have hnot : (a', b') ∉ s := by simpa using hc
+              have hb : Bounded g.size ((a', b') :: s) := by
+                intro p hp
+                rcases List.mem_cons.mp hp with rfl | hp
+                · exact ⟨node_str_lt hna, node_str_lt hnb⟩
+                · exact h2 p hp
+              obtain ⟨c1, c2⟩ := uniL_fuel ih (as.zip bs) bnd ((a', b') :: s)
+                (List.nodup_cons.mpr ⟨hnot, h1⟩) hb (by simp only [List.length_cons]; omega)
+              refine ⟨c1, ?_⟩
+              intro bnd' s' h
+              obtain ⟨d1, d2, d3⟩ := c2 bnd' s' h
+              simp only [List.length_cons] at d3
+              exact ⟨d1, d2, by omega⟩
+            · exact ⟨by simp, by intro _ _ h; cases h⟩
+
+theorem unify_ne_fuel (g : Graph) (a b : Nat) : ∀ x, unify g a b = x → x ≠ .fuel := by
+  intro x hx
+  have := (uniN_fuel g (pairFuel g) a b [] [] List.nodup_nil (by intro p hp; simp at hp)
+    (by simp [pairFuel])).1
+  rw [← hx]
+  exact this
+
 end Scryer.Graph
